@@ -52,7 +52,7 @@ def run_model_families(ctx, families, workers=2):
     return len(progs)
 
 
-def run_family(ctx, profile, nprog, size=14, schedules=None, batch=250, clause_props=None, tag=''):
+def run_family(ctx, profile, nprog, size=14, schedules=None, batch=250, clause_props=None, tag='', focus=None):
     """Returns dict of statistics. profile: set of statement families."""
     rng = ctx.rng
     stats = {'programs': 0, 'boundaries': 0, 'ended': {}, 'fragment_discards': 0, 'cut': 0}
@@ -62,7 +62,7 @@ def run_family(ctx, profile, nprog, size=14, schedules=None, batch=250, clause_p
         runner = G.Runner()
         progs, texts, events, owner = [], [], [], []
         for i in range(n):
-            g = G.Gen(rng, profile)
+            g = G.Gen(rng, profile, focus=focus)
             prog, text = g.program(size=size)
             r = runner.load(text)
             if r[0] != 'ok':
